@@ -4,6 +4,8 @@ from __future__ import annotations
 import itertools
 import json
 
+INF = float("inf")
+
 from harness.common import Run
 from harness.props import state_toy as T
 
@@ -13,7 +15,10 @@ META = dict(
               "ALL state operations: states with the same independent values answer every later history identically) and on the "
               "sampler steps written as scripts over that model; the model's step function is run inside Coq (vm_compute) on the "
               "sampler-shaped histories executed by the real State, for every rejection mask; reference-state oracle on the real "
-              "State and on real Gibbs sampler steps of fitted shipped models, with directed non-finite proposals",
+              "State and on real Gibbs sampler steps of fitted shipped models, with directed non-finite proposals; directed real-sampler steps around "
+              "the NaN acceptance ratio (one individual with a non-evaluable proposal, every other one a null move: one-individual states and forced "
+              "normal draws, also population blocks) incl. the undo log being consumed by the decision; sampler-shaped toy histories on graphs with "
+              "WeightedTensor nodes whose weight is computed from the sampled variable (State/StateWExec.v: value AND weight selected row by row)",
     level_text="For every value type, well-formed graph, forked proposal, set of reads and later history: after revert() every value "
                "cached before the proposal is exactly back and every later operation answers as if the proposal had never been made; "
                "after revert(mask) under the documented preconditions (per-individual variable, reads of per-individual nodes only, "
@@ -45,6 +50,8 @@ OBLIGATIONS = [
     "C02_full_revert_built", "C02_pop_step_built", "C02_opkind_functions_commute_with_selection", "C02_F_mix_opkinds",
     "C02_axis_closed_well_typed", "C02_partial_revert_well_typed", "C02_partial_revert_as_if_well_typed",
     "C02_ind_step_well_typed", "C02_later_history_opkinds", "C02_compose_examples",
+    # weighted values (State/StateWExec.v): mix = _select = row-wise selection of value AND weight
+    "C02_partial_revert_weighted", "C02_weighted_select_rows",
 ]
 
 HEADER = ("From Coq Require Import ZArith List Bool.\n"
@@ -52,6 +59,12 @@ HEADER = ("From Coq Require Import ZArith List Bool.\n"
           "Import ListNotations.\nOpen Scope Z_scope.\nOpen Scope nat_scope.\n")
 CASE_TYPE = "list nspec * list (xop * out xval * bool)"
 ASIF_TYPE = "list nspec * list xop * list xop * list nat"
+
+WHEADER = ("From Coq Require Import ZArith List Bool.\n"
+           "From Leaspy Require Import State.StateModel State.StateExec State.StateWExec.\n"
+           "Import ListNotations.\nOpen Scope Z_scope.\nOpen Scope nat_scope.\n")
+WCASE_TYPE = "list wspec * list (wop * out wval * bool)"
+WASIF_TYPE = "list wspec * list wop * list wop * list nat"
 
 SIG_F2 = "partial-revert:nonfinite-discarded-side-leaks"
 WHAT_F2 = ("State.revert(mask) computes old*mask + cur*~mask: a non-finite value on the DISCARDED side (inf*0, nan*0) turns the kept "
@@ -77,6 +90,8 @@ def nonfinite_discard(mask, fork_json, cur_json):
         cur = cur_json.get(k)
         if old is None or cur is None:
             continue
+        if T.is_weighted_json(old) and T.is_weighted_json(cur):
+            old, cur = old["wv"], cur["wv"]
         o = old if isinstance(old, list) else [old] * len(mask)
         c = cur if isinstance(cur, list) else [cur] * len(mask)
         if len(o) != len(mask) or len(c) != len(mask):
@@ -154,6 +169,20 @@ def gen_graph(rng):
     return G
 
 
+def gen_wgraph(rng):
+    """a C02 toy graph + nodes of the weighted vocabulary of state_toy (WeightedTensor whose weight is computed from a per-individual
+    parent, its per-individual and aggregated consumers)"""
+    G = gen_graph(rng)
+    used = {nd["name"] for nd in G.nodes}
+    left = [n for n in T.NAME_POOL if n not in used]
+    rng.shuffle(left)
+    nodes = [dict(nd) for nd in G.nodes]
+    T.add_weighted_nodes(rng, nodes, G.n_ind, G.dtype, left)
+    W = T.ToyGraph(nodes, G.n_ind, G.dtype)
+    W.log_vars = G.log_vars
+    return W
+
+
 LOG_VALUES = [1, 2, 4, 8, 16]
 LOG_TARGETS = [1, 2, 4, 8, 32, 0, 0, -1, -2, "inf"]
 
@@ -229,6 +258,13 @@ def gen_template(rng, G):
             pre = [rng.choice(names) for _ in range(rng.randint(0, 3))]          # before the proposal: anything
             tgt = target_value(rng, G, v, cur[v])
             mid = [rng.choice(allowed) for _ in range(rng.randint(0, 4))] if allowed else []
+            if G.weighted and is_ind:
+                # weighted graphs: per-individual descendants (the WeightedTensor nodes among them) cached BEFORE and AFTER the proposal,
+                # so that the decision meets doubly cached weighted nodes
+                below = [r for r in G.dag.sorted_children[v] if r in allowed]
+                if below:
+                    pre = pre + rng.sample(below, min(len(below), rng.randint(1, 2)))
+                    mid = mid + rng.sample(below, min(len(below), rng.randint(1, 3)))
             mask = None if s == enum_at else [rng.random() < 0.5 for _ in range(G.n_ind)]
             steps.append(dict(kind="ind", var=v, pre=pre, target=tgt, mid=mid, mask=mask))
         else:
@@ -404,12 +440,30 @@ def correspond(run: Run, name, runs, metas):
     return bad, repaired
 
 
-def toy_steps(run: Run, n_templates):
+def correspond_weighted(run: Run, name, runs, metas):
+    """histories on graphs with weighted values: the model of `_select` (row-wise selection of value AND weight, wsem_where) only"""
+    cases = [r.s.coq_case() for r in runs]
+    bad = run.vm_bad_indices(name + "_wwhere", WHEADER, WCASE_TYPE, cases, "(check_wcase_with wsem_where false)", shard=120) or []
+    run.extra.setdefault("partial_revert_semantics", {})[name] = dict(histories=len(cases), agree_with_weighted_selection_model=len(cases) - len(bad))
+    for i in bad:
+        r = runs[i]
+        run.fail("model-vs-code:sampler-step-history", "the State implementation and the Coq model of state.py (weighted values: `_select` = row-wise "
+                 "selection of value AND weight) disagree on the result of an operation of a sampler-shaped history: the theorems no longer speak about this code",
+                 dict(graph=r.G.to_json(), ops=r.ops(), which="weighted-selection-model", **metas[i]),
+                 expected="results computed by the model (coq/tmp)", observed=[list(x[1]) for x in r.s.records][-12:],
+                 kind="broken-correspondence")
+    return bad
+
+
+def toy_steps(run: Run, n_templates, weighted=False):
     runs, metas, asif = [], [], []
     masks_seen = {}
+    wstat = dict(histories=0, with_a_partial_revert_over_a_doubly_cached_weighted_node=0, of_which_the_weights_differ_between_the_sides=0)
     for t in range(n_templates):
-        rng = run.rng("c02-toy", t)
-        G = gen_graph(rng)
+        rng = run.rng("c02-wtoy" if weighted else "c02-toy", t)
+        G = gen_wgraph(rng) if weighted else gen_graph(rng)
+        if weighted and not G.weighted:
+            continue
         try:
             G.build()
         except Exception as e:  # noqa
@@ -429,7 +483,11 @@ def toy_steps(run: Run, n_templates):
             runs.append(sr)
             metas.append(dict(case=t, mask=[int(m) for m in mask]))
             masks_seen[G.n_ind] = masks_seen.get(G.n_ind, 0) + 1
-            run.case(("toy", json.dumps(G.to_json(), sort_keys=True), json.dumps(sr.ops())), nontrivial=True)
+            run.case(("wtoy" if weighted else "toy", json.dumps(G.to_json(), sort_keys=True), json.dumps(sr.ops())), nontrivial=True)
+            if weighted:
+                wstat["histories"] += 1
+                wstat["with_a_partial_revert_over_a_doubly_cached_weighted_node"] += bool(sr.s.weighted_masks)
+                wstat["of_which_the_weights_differ_between_the_sides"] += bool(sr.s.weight_flipping_masks)
             run.count("rejected_individuals", sum(mask))
             run.count("nonfinite_discarded_side", "yes" if sr.nonfinite_steps else "no")
             report_failures(run, G, sr, metas[-1])
@@ -438,16 +496,25 @@ def toy_steps(run: Run, n_templates):
             if t in (1, 7) and sum(mask) == 1 and len(run.samples) < 4:
                 run.sample(dict(kind="toy sampler-shaped history", graph=G.to_json(), mask=[int(m) for m in mask],
                                 history=[dict(op=r[0], out=r[1]) for r in sr.s.records[:30]]))
-    run.extra["masks_enumerated"] = {f"n={k}": f"{v} histories = {v // (2 ** k)} templates x all {2 ** k} masks" for k, v in sorted(masks_seen.items())}
-    correspond(run, "toy", runs, metas)
-    # the model's own "as if": after the history, all reads equal the reads after assigning the expected values directly (selection mix)
-    bad = run.vm_bad_indices("asif", HEADER, ASIF_TYPE, [r.asif_case() for r in asif], "(check_as_if xsem_where)", shard=150) or []
+    if weighted:
+        run.extra["weighted_masks_enumerated"] = {f"n={k}": f"{v} histories = {v // (2 ** k)} templates x all {2 ** k} masks" for k, v in sorted(masks_seen.items())}
+        run.extra["weighted_toy_steps"] = wstat
+        if n_templates and wstat["of_which_the_weights_differ_between_the_sides"] < max(5, n_templates // 4):
+            run.broken("generator:weighted-shape", f"too few sampler-shaped histories with a partial revert over a doubly cached weighted node whose weights "
+                       f"differ between the two sides: {wstat}", kind="broken-correspondence")
+        correspond_weighted(run, "wtoy", runs, metas)
+        bad = run.vm_bad_indices("wasif", WHEADER, WASIF_TYPE, [r.asif_case() for r in asif], "(check_was_if wsem_where)", shard=150) or []
+    else:
+        run.extra["masks_enumerated"] = {f"n={k}": f"{v} histories = {v // (2 ** k)} templates x all {2 ** k} masks" for k, v in sorted(masks_seen.items())}
+        correspond(run, "toy", runs, metas)
+        # the model's own "as if": after the history, all reads equal the reads after assigning the expected values directly (selection mix)
+        bad = run.vm_bad_indices("asif", HEADER, ASIF_TYPE, [r.asif_case() for r in asif], "(check_as_if xsem_where)", shard=150) or []
     for i in bad:
         r = asif[i]
         run.fail("model:as-if-reference", "in the Coq model (selection mix) the reads after a sampler-shaped history differ from the reads after "
                  "assigning the expected values directly: the reference used by the oracle and the model's partial revert disagree",
                  dict(graph=r.G.to_json(), ops=r.ops()), kind="broken-correspondence")
-    run.extra["as_if_cases_in_model"] = len(asif)
+    run.extra["weighted_as_if_cases_in_model" if weighted else "as_if_cases_in_model"] = len(asif)
 
 
 # ----------------------------------------------------------------------------- the witness of F2 on the real State
@@ -716,10 +783,13 @@ class SamplerOracle:
         return True
 
     # -- population sampler: one call = a sequence of blocks
-    def population(self, name, T_inv, rep, directed=None):
+    def population(self, name, T_inv, rep, directed=None, force_z=None, label=None):
+        """`force_z(k, natural)`: value the k-th torch.randn call of this `sample` returns (c03.Recorder: the natural draw is still
+        drawn; the property fixes the proposal GIVEN the normal draw).  Returns the list of blocks (alpha, accepted) or None."""
         import torch
+        from harness.props import c03
         st, sampler = self.state, self.algo.samplers[name]
-        meta = dict(sampler=type(sampler).__name__, variable=name, temperature_inv=T_inv, rep=rep, directed=directed)
+        meta = dict(sampler=type(sampler).__name__, variable=name, temperature_inv=T_inv, rep=rep, directed=directed if label is None else label)
         orig_change = sampler._proposed_change_idx
         if directed is not None:
             def change(idx, _d=directed, _o=orig_change):
@@ -727,10 +797,10 @@ class SamplerOracle:
                 return torch.full_like(c, _d)
             sampler._proposed_change_idx = change
         try:
-            with Watch(st) as w:
+            with Watch(st) as w, c03.Recorder(force_z=force_z):
                 sampler.sample(st, temperature_inv=T_inv)
         except Exception as e:  # noqa
-            self.raised(meta, directed, e)
+            self.raised(meta, directed if label is None else label, e)
             return
         finally:
             if directed is not None:
@@ -747,11 +817,12 @@ class SamplerOracle:
                 cur["accepted"], cur["alpha"] = ev[1], ev[2]
             elif cur is not None and ev[0] == "before-revert":
                 cur["reverted"], cur["mask"], cur["at_revert"] = True, ev[1], ev[2]
+        self.last_blocks = [dict(alpha=b.get("alpha"), accepted=b.get("accepted")) for b in blocks]
         # the value of the variable after block k = its value before block k+1 (or now)
         leak = False
         for k, b in enumerate(blocks):
             after = blocks[k + 1]["pre"] if k + 1 < len(blocks) else {n: v for n, v in st._values.items()}
-            self.run.case(("pop", self.label, name, T_inv, rep, k, str(directed)), nontrivial=True, validated=False)
+            self.run.case(("pop", self.label, name, T_inv, rep, k, str(directed if label is None else label)), nontrivial=True, validated=False)
             self.run.count("pop_block", "accepted" if b.get("accepted") else "rejected")
             if "accepted" not in b:
                 self.fail("sampler:no-decision-recorded", "a proposal was made without a Metropolis decision", dict(block=k, **meta))
@@ -775,23 +846,32 @@ class SamplerOracle:
                               dict(block=k, idx=list(b["idx"]), **meta), expected=describe(b["proposed"]), observed=describe(after[name]))
                     return
         self.end_of_step_fresh(meta, leak)
+        return [dict(alpha=b.get("alpha"), accepted=b.get("accepted")) for b in blocks]
 
     # -- individual sampler: one call = one proposal for all individuals
-    def individual(self, name, T_inv, rep, directed=None):
+    def individual(self, name, T_inv, rep, directed=None, force_z=None, sampler=None):
+        """`directed = (label, delta)` replaces the proposal; `directed = (label, None)` + `force_z(k, natural)` forces the normal draw of
+        the real `_proposed_change` instead (c03.Recorder).  `sampler`: the sampler object to run (default: the fit's own).
+        Returns dict(alpha, accepted) of the step, or None."""
         import torch
-        st, sampler = self.state, self.algo.samplers[name]
-        meta = dict(sampler=type(sampler).__name__, variable=name, temperature_inv=T_inv, rep=rep, directed=None if directed is None else directed[0])
-        if directed is not None:
+        from harness.props import c03
+        st = self.state
+        self.last_info = None
+        sampler = self.algo.samplers[name] if sampler is None else sampler
+        meta = dict(sampler=type(sampler).__name__, variable=name, temperature_inv=T_inv, rep=rep, directed=None if directed is None else directed[0],
+                    n_individuals=self.n_ind)
+        replace = directed is not None and directed[1] is not None
+        if replace:
             delta = directed[1]
             sampler._proposed_change = lambda _d=delta: _d.clone()
         try:
-            with Watch(st) as w:
+            with Watch(st) as w, c03.Recorder(force_z=force_z):
                 sampler.sample(st, temperature_inv=T_inv)
         except Exception as e:  # noqa
             self.raised(meta, directed, e)
             return
         finally:
-            if directed is not None:
+            if replace:
                 del sampler._proposed_change
         ev = {e[0]: e for e in w.events}
         if "put" not in ev or "decisions" not in ev:
@@ -799,8 +879,27 @@ class SamplerOracle:
             return
         pre, proposed = ev["put"][2], ev["proposed"][2]
         accepted = ev["decisions"][1].to(torch.bool)
+        info = dict(alpha=ev["decisions"][2], accepted=accepted)
+        self.last_info = info
         rej = [j for j in range(self.n_ind) if not bool(accepted[j])]
         acc = [j for j in range(self.n_ind) if bool(accepted[j])]
+        # the decision consumes the undo log: `state.revert(~accepted)` is what gibbs.py:758 does after EVERY decision (model: ind_step ends
+        # with RevertMask; theorem C02_ind_step: fork st' = None).  A fork still pending when `sample` returns means no reversion took place.
+        if st._last_fork is not None:
+            alpha_l = [repr(float(a)) for a in ev["decisions"][2].flatten().tolist()]
+            if rej:
+                self.fail("ind-sampler:rejected-proposal-not-reverted", f"IndividualGibbsSampler on '{name}': individuals {rej} were rejected "
+                          f"(acceptance ratios {alpha_l}; a ratio that cannot be evaluated — NaN — is a rejection) but `sample` returned without reverting: "
+                          "the undo log of the proposal is still pending and the rejected individuals keep the proposed value",
+                          dict(rejected=rej, alpha=alpha_l, **meta), expected="state._last_fork is None (state.revert(~accepted) consumed it)",
+                          observed=f"state._last_fork still holds {sorted(st._last_fork)[:6]}")
+            else:
+                self.run.count("sampler_oracle", "ind-sampler:fork-left-pending-after-all-accepted-step")
+                self.run.fail("ind-sampler:fork-left-pending", f"IndividualGibbsSampler on '{name}': every individual was accepted and `sample` returned with the undo log "
+                              "of the proposal still pending: the step is not the modelled script (put; reads; decide; revert(~accepted): C02_ind_step has "
+                              "fork = None afterwards) — a later `state.revert()` by any caller silently undoes the ACCEPTED proposal instead of being refused",
+                              dict(config=self.label, alpha=alpha_l, **meta), expected="state._last_fork is None", observed=f"pending fork on {sorted(st._last_fork)[:6]}",
+                              kind="broken-correspondence")
         self.run.case(("ind", self.label, name, T_inv, rep, str(meta["directed"])), nontrivial=bool(rej) and bool(acc), validated=False)
         self.run.count("ind_step_rejected_fraction", f"{round(10 * len(rej) / self.n_ind) * 10}%")
         at_rev = ev["before-revert"][2] if "before-revert" in ev else {}
@@ -862,8 +961,9 @@ class SamplerOracle:
                               (WHAT_F2 + f" [IndividualGibbsSampler on '{name}', node '{n}']") if nan_only else
                               f"IndividualGibbsSampler on '{name}': rows of REJECTED individuals of the derived variable '{n}' are not what they were before the proposal",
                               dict(node=n, rejected=rej, **meta), expected=describe(old), observed=describe(cur))
-                    return
+                    return info
         self.end_of_step_fresh(meta, leak)
+        return info
 
 
 def directed_changes(oracle: SamplerOracle, name, rng):
@@ -903,9 +1003,139 @@ def directed_changes(oracle: SamplerOracle, name, rng):
     return out
 
 
+def one_individual_state(base, j):
+    """A harness-made state of ONE individual (what a 1-subject personalisation works on): same DAG, same population values, data variables and
+    individual latent variables restricted to individual `j` (rows j:j+1), auto-fork as in `base`, nothing forked."""
+    from leaspy.variables.specs import DataVariable, IndividualLatentVariable
+    from leaspy.variables.state import State
+    dag = base.dag
+    ind = list(dag.sorted_variables_by_type.get(IndividualLatentVariable, {}))
+    n = base[ind[0]].shape[0]
+    st = State(dag, auto_fork_type=base.auto_fork_type)
+    with st.auto_fork(None):
+        for name in dag:
+            v = base._values[name]
+            if not dag[name].is_settable or v is None:
+                continue
+            if isinstance(dag[name], (DataVariable, IndividualLatentVariable)) and tv(v).ndim >= 1 and tv(v).shape[0] == n:
+                v = clone_val(v[j:j + 1])
+            st[name] = v
+    return st
+
+
+def z_candidates(shape, std):
+    """normal draws (for ONE individual) whose proposal `previous + std * z` cannot be evaluated, or is huge"""
+    import torch
+    numel = 1
+    for d in shape:
+        numel *= d
+    alt = torch.tensor([INF if i % 2 == 0 else -INF for i in range(numel)]).reshape(shape)
+    huge = 3e38 / max(float(std), 1.0)          # std * z <= 3e38 stays a float32
+    out = [("z = +inf", torch.full(shape, INF)), ("z = -inf", torch.full(shape, -INF)), ("z = 3e38 / max(std, 1)", torch.full(shape, huge)),
+           ("z = 0 (null move for everybody: every alpha = 1, all accepted)", torch.zeros(shape))]
+    if numel >= 2:
+        out.insert(0, ("z = (+inf, -inf, ..)", alt))
+        half = torch.tensor([huge if i % 2 == 0 else -huge for i in range(numel)]).reshape(shape)
+        out.append(("z = (3e38, -3e38, ..) / max(std, 1)", half))
+    return out
+
+
+def nan_alpha_steps(run: Run, orc: SamplerOracle, algo, base, rng, stats):
+    """Directed real-sampler steps around the NaN acceptance ratio (the seeded defect "revert only `if (alpha < 1).any()`"): one individual gets a
+    normal draw whose proposal cannot be evaluated (+-inf / huge: alpha is NaN when inf - inf or inf * 0 appears; `rand < nan` is a rejection), every
+    other individual of the batch gets the draw 0 (null move: alpha = 1 exactly, accepted) — (a) on a ONE-individual state (no other individual at
+    all), (b) on the full cohort with the normal draws of all other individuals FORCED to 0 (c03.Recorder wraps torch.randn for that call; the real
+    `_proposed_change` runs).  For `xi` also after `tau := first observed age` of the target (exp(xi) * (t - tau) = inf * 0).  All individual-sampler
+    variables of the configuration.  The oracle of `SamplerOracle.individual` then requires: rejected rows of the variable and of every doubly cached
+    per-individual derived value bit-identical to the snapshot taken before the proposal, every read equal to a from-scratch evaluation, and
+    `state._last_fork is None`.  Population samplers: one block gets the non-finite draw, the other blocks the draw 0."""
+    import copy
+    import torch
+    from leaspy.samplers import IndividualGibbsSampler
+    label = orc.label
+    n = orc.n_ind
+    for name in [v for v in algo.samplers if v in orc.ind_vars]:
+        sampler = algo.samplers[name]
+        shape = tuple(sampler.shape)
+        preps = [None] + (["tau := first observed age"] if (name == "xi" and "tau" in orc.ind_vars and "t" in orc.names) else [])
+        for prep in preps:
+            for scen in ("single individual", "others forced to a null move"):
+                j0 = rng.randrange(n)
+                for lab, zrow in z_candidates(shape, float(sampler.std.flatten()[j0 if scen != "single individual" else 0])):
+                    if scen == "single individual":
+                        st = one_individual_state(base, j0)
+                        smp = IndividualGibbsSampler(name, shape, n_patients=1, scale=float(sampler.scale))
+                        target, n_here = 0, 1
+                    else:
+                        st = base.clone()
+                        st.auto_fork_type = base.auto_fork_type
+                        smp = copy.deepcopy(sampler)
+                        target, n_here = j0, n
+                    if prep is not None:
+                        with st.auto_fork(None):
+                            tau = st["tau"].clone()
+                            tau[target, 0] = tv(st["t"])[target, 0].to(tau.dtype)
+                            st["tau"] = tau
+                    z = torch.zeros((n_here, *shape))
+                    z[target] = zrow
+                    sub = SamplerOracle(run, label, algo, st)
+                    full = f"{scen}; {lab}" + (f"; after {prep}" if prep else "")
+                    done = sub.individual(name, 1.0, 0, directed=(full, None), force_z=lambda k, nat, _z=z: _z if k == 0 else None, sampler=smp)
+                    info = sub.last_info
+                    key = f"{name}: {scen}"
+                    if done is None:
+                        stats["individual"][key + ": a check failed or the step raised"] = stats["individual"].get(key + ": a check failed or the step raised", 0) + 1
+                    if info is None:
+                        continue
+                    a = info["alpha"].flatten()
+                    others = [i for i in range(n_here) if i != target]
+                    reached = bool(a[target].isnan()) and all(float(a[i]) >= 1 for i in others) and not bool(info["accepted"][target])
+                    if bool(info["accepted"].all()):
+                        stats["reached"]["all accepted: " + scen] = stats["reached"].get("all accepted: " + scen, 0) + 1
+                    kind = ("alpha[target] = NaN, every other alpha >= 1" if reached else
+                            "alpha[target] = NaN, some other alpha < 1" if bool(a[target].isnan()) else
+                            f"alpha[target] = {'0' if float(a[target]) == 0 else 'inf' if float(a[target]) == INF else 'finite'} (no NaN)")
+                    stats["individual"][f"{key}: {kind}"] = stats["individual"].get(f"{key}: {kind}", 0) + 1
+                    if reached:
+                        stats["reached"][scen] = stats["reached"].get(scen, 0) + 1
+                        stats["reached_configs"].add(f"{label}/{name}/{scen}")
+    for name in [v for v in algo.samplers if v not in orc.ind_vars]:
+        sampler = algo.samplers[name]
+        for lab, val in (("z = +inf", INF), ("z = -inf", -INF), ("z = 3e38 / max(std, 1)", None)):
+            st = base.clone()
+            st.auto_fork_type = base.auto_fork_type
+            sub = SamplerOracle(run, label, dict_algo(algo, name, copy.deepcopy(sampler)), st)
+            kb = rng.randrange(4)
+
+            def fz(k, nat, _kb=kb, _val=val, _std=float(sampler.std.flatten()[0])):
+                v = (3e38 / max(_std, 1.0)) if _val is None else _val
+                return torch.full_like(nat, v if k == _kb else 0.0)
+            sub.last_blocks = []
+            sub.population(name, 1.0, 0, force_z=fz, label=f"block #{kb}: {lab}; other blocks: null move")
+            for b in sub.last_blocks:
+                a = b["alpha"]
+                kind = "NaN" if (a is not None and a != a) else "other"
+                stats["population"][f"{name}: alpha {kind}, {'accepted' if b['accepted'] else 'rejected'}"] = \
+                    stats["population"].get(f"{name}: alpha {kind}, {'accepted' if b['accepted'] else 'rejected'}", 0) + 1
+                if kind == "NaN":
+                    stats["reached"]["population block"] = stats["reached"].get("population block", 0) + 1
+
+
+class dict_algo:
+    """the fit's algorithm object with ONE sampler replaced (a deep copy: directed steps must not adapt the fit's own sampler)"""
+
+    def __init__(self, algo, name, sampler):
+        self.samplers = dict(algo.samplers)
+        self.samplers[name] = sampler
+
+
+NAN_STATS = dict(individual={}, population={}, reached={}, reached_configs=set())
+
+
 def real_samplers(run: Run, cfgs, reps):
     import torch
     from harness.props import c03
+    NAN_STATS.update(individual={}, population={}, reached={}, reached_configs=set())
     for label, kind, kw, pop in cfgs:
         try:
             algo, state = c03.fitted(run, label, kind, kw, pop)
@@ -940,6 +1170,11 @@ def real_samplers(run: Run, cfgs, reps):
                     orc.state.auto_fork_type = base.auto_fork_type
                     orc.population(name, 1.0, 0, directed=d)
         orc.state = base
+        try:
+            nan_alpha_steps(run, orc, algo, base, rng, NAN_STATS)
+        except Exception as e:  # noqa
+            import traceback
+            run.broken("real-sampler-oracle:nan-alpha-steps", f"{label}: {type(e).__name__}: {e}\n{traceback.format_exc()[-1500:]}")
         run.count("shipped", f"{label}: {len(names)} samplers on a {len(orc.names)}-node graph, {orc.n_ind} individuals, torch seed {seed}")
 
 
@@ -993,6 +1228,11 @@ def main(run: Run):
     except Exception as e:  # noqa
         import traceback
         run.broken("toy-steps", f"{type(e).__name__}: {e}\n{traceback.format_exc()[-1500:]}")
+    try:
+        toy_steps(run, 160 if thorough else 50, weighted=True)
+    except Exception as e:  # noqa
+        import traceback
+        run.broken("toy-steps-weighted", f"{type(e).__name__}: {e}\n{traceback.format_exc()[-1500:]}")
     from harness.props import c03
     cfgs = c03.configs(thorough)
     if not thorough:
@@ -1003,6 +1243,18 @@ def main(run: Run):
     except Exception as e:  # noqa
         import traceback
         run.broken("real-sampler-oracle", f"{type(e).__name__}: {e}\n{traceback.format_exc()[-1500:]}")
+    st = dict(NAN_STATS)
+    st["reached_configs"] = sorted(st["reached_configs"])
+    st["note"] = ("directed real IndividualGibbsSampler steps in which ONE individual gets a normal draw whose proposal cannot be evaluated and every other "
+                  "individual of the batch a null move (draw forced to 0), on a one-individual state and on the full cohort; 'reached' = the recorded "
+                  "acceptance ratios are NaN for the target and >= 1 for everybody else (the step in which a reversion guarded by `(alpha < 1).any()` "
+                  "is skipped); population samplers: one block with the non-finite draw, the others with the draw 0")
+    run.extra["nan_alpha_steps"] = st
+    for scen in ("single individual", "others forced to a null move", "population block", "all accepted: single individual",
+                 "all accepted: others forced to a null move"):
+        if cfgs and not NAN_STATS["reached"].get(scen):
+            run.broken("generator:nan-alpha-shape", f"no directed sampler step reached the shape '{scen}' with a NaN acceptance ratio for the target and "
+                       f"alpha >= 1 for everybody else: {json.dumps(st, default=str)[:1500]}", kind="broken-correspondence")
     return run.finish()
 
 
@@ -1018,6 +1270,27 @@ def replay(run: Run, path: str):
         print(f"x -> y = 2x+1 -> z = sum(y), values of shape {inp['shape']}, revert(mask={inp['mask']}):", "as expected" if r is None else f"{r[1]}\n expected {r[2]}\n observed {r[3]}")
         print("REPLAY", "FAILS" if r else "passes")
         return 1 if r else 0
+    if not isinstance(inp.get("graph"), dict) and isinstance(inp.get("config"), str) and "directed" in inp and inp.get("sampler") == "IndividualGibbsSampler" \
+            and isinstance(inp.get("directed"), str) and ("single individual" in inp["directed"] or "null move" in inp["directed"]):
+        # a directed NaN-acceptance-ratio step: refit the configuration (same derived seed) and redo the directed steps of that configuration
+        from harness.props import c03
+        cfg = next((c for c in c03.configs(True) if c[0] == inp["config"]), None)
+        if cfg is None:
+            print(f"replay: unknown configuration {inp['config']}; re-running the check")
+            return main(run)
+        label, kind, kw, pop = cfg
+        algo, state = c03.fitted(run, label, kind, kw, pop)
+        orc = SamplerOracle(run, label, algo, state)
+        NAN_STATS.update(individual={}, population={}, reached={}, reached_configs=set())
+        nan_alpha_steps(run, orc, algo, state, run.rng("c02-replay", label), NAN_STATS)
+        print(f"{label}: directed steps with a non-evaluable proposal for one individual and null moves for the others "
+              f"(recorded: {inp.get('variable')}, {inp['directed']}, {inp.get('n_individuals')} individual(s)):")
+        for k, v in sorted(NAN_STATS["individual"].items()):
+            print(f"   {v:3d} x {k}")
+        for f in run._fails[:6]:
+            print(f"TRACE LEFT [{f['signature']}] {f['what'][:300]}\n   input {json.dumps(f['input'], default=str)[:400]}\n   expected {str(f['expected'])[:200]}\n   observed {str(f['observed'])[:200]}")
+        print("REPLAY", "FAILS" if run._fails else "passes")
+        return 1 if run._fails else 0
     if not isinstance(inp.get("graph"), dict):
         print("replay: no toy history in this file (real-sampler finding or broken obligation); re-running the check")
         return main(run)
@@ -1030,14 +1303,23 @@ def replay(run: Run, path: str):
             print(f"  {op}  ->  {out}")
         for f in sr.failures:
             print(f"TRACE LEFT after step {f['step']}: node {f['node']}: read {f['observed']} but the reference state gives {f['expected']}  [{f['sig']}]")
-        r = run.vm_bad_indices("replay", HEADER, CASE_TYPE, [sr.s.coq_case()], "check_code")
-        rw = run.vm_bad_indices("replay_w", HEADER, CASE_TYPE, [sr.s.coq_case()], "check_where")
-        print("implementation agrees with the model of the code as it is:", r == [], "| with the model of the repair (torch.where):", rw == [])
+        if G.weighted:
+            r = rw = run.vm_bad_indices("replay", WHEADER, WCASE_TYPE, [sr.s.coq_case()], "(check_wcase_with wsem_where false)")
+            print("implementation agrees with the model (weighted values: `_select` = row-wise selection of value AND weight):", r == [])
+        else:
+            r = run.vm_bad_indices("replay", HEADER, CASE_TYPE, [sr.s.coq_case()], "check_code")
+            rw = run.vm_bad_indices("replay_w", HEADER, CASE_TYPE, [sr.s.coq_case()], "check_where")
+            print("implementation agrees with the model of the code as it is:", r == [], "| with the model of the repair (torch.where):", rw == [])
         bad = bool(sr.failures) or (bool(r) and bool(rw))
     else:
         s = T.run_ops(G, inp["ops"], oracle=False)
         for op, out, ok in s.records:
             print(f"  {op}  ->  {out}")
+        if G.weighted:
+            r = rw = run.vm_bad_indices("replay", WHEADER, WCASE_TYPE, [s.coq_case()], "(check_wcase_with wsem_where false)")
+            print("implementation agrees with the model (weighted values: `_select` = row-wise selection of value AND weight):", r == [])
+            print("REPLAY", "FAILS" if r else "passes")
+            return 1 if r else 0
         r = run.vm_bad_indices("replay", HEADER, CASE_TYPE, [s.coq_case()], "check_code")
         rw = run.vm_bad_indices("replay_w", HEADER, CASE_TYPE, [s.coq_case()], "check_where")
         print("implementation agrees with the model of the code as it is:", r == [], "| with the model of the repair (torch.where):", rw == [])
